@@ -33,18 +33,18 @@ def _ref(n):
 
 
 SCHEMAS = {
-    "Alpha": {"type": "object", "properties": {"to-beta": _ref("Beta"), "to-gamma": _ref("Gamma"), "to-delta": _ref("Delta"), "kind": {"type": "string", "enum": ["x", "y"]}}},
+    "Alpha": {"type": "object", "properties": {"to-beta": _ref("Beta"), "to-gamma": _ref("Gamma"), "to-delta": _ref("BaseGamma"), "kind": {"type": "string", "enum": ["x", "y"]}}},
     "Beta": {"type": "object", "properties": {"back": _ref("Alpha"), "n": {"type": "integer"}}},
-    "Gamma": {"allOf": [_ref("Delta"), {"type": "object", "properties": {"g": {"type": "string"}, "u": {"type": "array", "items": _ref("Alpha")}, "v": _ref("Beta")}}]},
-    "Delta": {"type": "object", "properties": {"d": {"type": "string", "format": "date"}}},
-    "Registry": {"type": "object", "additionalProperties": {"type": "object", "properties": {"ra": _ref("Alpha"), "rb": _ref("Beta"), "rd": _ref("Delta"), "rg": _ref("Gamma")}}},
+    "Gamma": {"allOf": [_ref("BaseGamma"), {"type": "object", "properties": {"g": {"type": "string"}, "u": {"type": "array", "items": _ref("Alpha")}, "v": _ref("Beta")}}]},
+    "BaseGamma": {"type": "object", "properties": {"d": {"type": "string", "format": "date"}}},
+    "Registry": {"type": "object", "additionalProperties": {"type": "object", "properties": {"ra": _ref("Alpha"), "rb": _ref("Beta"), "rd": _ref("BaseGamma"), "rg": _ref("Gamma")}}},
 }
 PATHS = {
     "/one": {"get": {"operationId": "getOne", "responses": {"200": {"description": "ok", "content": {"application/json": {"schema": _ref("Alpha")}}}, "404": {"description": "no", "content": {"application/json": {"schema": _ref("Beta")}}}}}},
-    "/two": {"post": {"operationId": "postTwo", "requestBody": {"content": {"application/json": {"schema": _ref("Gamma")}}}, "responses": {"200": {"description": "ok", "content": {"application/json": {"schema": _ref("Delta")}}}}}},
-    "/body-multi": {"post": {"operationId": "postMulti", "requestBody": {"content": {"multipart/form-data": {"schema": _ref("Delta")}}}, "responses": {"204": {"description": "none"}}}},
-    "/body-json": {"put": {"operationId": "putJson", "requestBody": {"content": {"application/json": {"schema": _ref("Delta")}}}, "responses": {"204": {"description": "none"}}}},
-    "/three": {"get": {"operationId": "getThree", "parameters": [{"name": "q", "in": "query", "schema": _ref("Delta")}], "responses": {"204": {"description": "none"}}}},
+    "/two": {"post": {"operationId": "postTwo", "requestBody": {"content": {"application/json": {"schema": _ref("Gamma")}}}, "responses": {"200": {"description": "ok", "content": {"application/json": {"schema": _ref("BaseGamma")}}}}}},
+    "/body-multi": {"post": {"operationId": "postMulti", "requestBody": {"content": {"multipart/form-data": {"schema": _ref("BaseGamma")}}}, "responses": {"204": {"description": "none"}}}},
+    "/body-json": {"put": {"operationId": "putJson", "requestBody": {"content": {"application/json": {"schema": _ref("BaseGamma")}}}, "responses": {"204": {"description": "none"}}}},
+    "/three": {"get": {"operationId": "getThree", "parameters": [{"name": "q", "in": "query", "schema": _ref("BaseGamma")}], "responses": {"204": {"description": "none"}}}},
 }
 
 
